@@ -155,7 +155,7 @@ class Primitive(Trimesh):
 
         for k, v in self._data.data.items():
             if k not in primitive_copy._data:
-                primitive_copy._data[k] = v
+                primitive_copy._data[k] = deepcopy(v)
 
         return primitive_copy
 
